@@ -7,11 +7,13 @@ import (
 
 // ---- low-level writes ----
 
+// markChanged notes that the statement changed rows or schema of t; the note
+// is transferred to the transaction only if the statement succeeds.
 func (x *execCtx) markChanged(t *table) {
-	if x.tx.changed == nil {
-		x.tx.changed = map[string]bool{}
+	if x.changed == nil {
+		x.changed = map[string]bool{}
 	}
-	x.tx.changed[t.name] = true
+	x.changed[t.name] = true
 }
 
 // lockSlot fails with lockWait if another open transaction wrote the slot.
